@@ -26,6 +26,7 @@ ASSUMPTIONS = ['a binary is stale when its own source, one of its (transitively)
                'torn .b files are not injected']
 
 PROGS = ['m', 'p', 'q', 'o']
+NO_CYCLE_SHRINK = True     # the oracle indexes plan cycles (phases, lives): removing cycles would change what is judged
 
 
 def _include_graph(w):
